@@ -25,11 +25,16 @@ ASSUME = [
 
 BRANCHES = ["grow_empty", "grow_contig", "grow_wrapped", "wrap", "wrap_after_drain", "append", "overwrite",
             "purge_nil", "purge_contig", "purge_tail_valid", "purge_tail_expired",
-            "purge_start_eq_len", "purge_tail_stale", "purge_drain", "purge_drain_at_end", "purge_none"]
+            "purge_start_eq_len", "purge_guard_decides", "purge_tail_stale", "purge_drain", "purge_drain_at_end", "purge_none"]
 
 _RE_HITS = re.compile(r'"RING-HITS",\s*<<([\d,\s]*)>>', re.S)
 _RE_DRIFT = re.compile(r'"RING-DRIFT at line", (\d+)')
 PART_LINES = 50000
+# Many TLC processes run side by side: cap every JVM (the default max heap is a quarter of the machine's RAM and the
+# parallel collector lets it fill up before collecting; 16 trace validators would take ~70 GB between them).
+JVM_SMALL = {"JAVA_TOOL_OPTIONS": "-Xmx1g -XX:ParallelGCThreads=2"}        # a 50k-line trace part validates in < 1 GB
+JVM_MODEL_QUICK = {"JAVA_TOOL_OPTIONS": "-Xmx3g -XX:ParallelGCThreads=4"}
+JVM_MODEL = {"JAVA_TOOL_OPTIONS": "-Xmx8g -XX:ParallelGCThreads=4"}
 
 
 def transition_cover(sc):
@@ -39,7 +44,7 @@ def transition_cover(sc):
     def one(b):
         path = os.path.join(out_dir, b + ".json")
         res = V.run_tlc(sc, "Window", "WindowRingMC.tla", "WindowRing_cover.cfg", workers=2, timeout=900,
-                        env_extra={"C03_COVER": b}, extra_args=["-dumpTrace", "json", path])
+                        env_extra=dict(JVM_SMALL, C03_COVER=b), extra_args=["-dumpTrace", "json", path])
         if res["violated"] != "CoverNotHit":
             if res["violated"]:
                 raise V.Broken("cover run for %s violated %s" % (b, res["violated"]))
@@ -79,7 +84,7 @@ def split_by_lines(path, sc):
     return V.split_trace(path, max(1, math.ceil(n / PART_LINES)), sc)
 
 
-def validate(sc, jobs, timeout=3000):
+def validate(sc, jobs, timeout=3000, parallel=8):
     """Like V.validate_traces for several (tag, module, cfg, files) jobs sharing one pool of TLC processes;
     also collects the ring branch counters and drift reports printed by WindowTrace.  Returns {tag: result}."""
     import time
@@ -92,13 +97,25 @@ def validate(sc, jobs, timeout=3000):
                 work.append((tag, module, cfg, part))
                 out[tag]["parts"] += 1
 
+    stop = {"set": False, "skipped": 0}
+
     def one(w):
         tag, module, cfg, fp = w
-        return w, V.run_tlc(sc, "Window", module, cfg, workers=1, timeout=timeout, env_extra={"TRACE_FILE": fp})
+        if stop["set"]:
+            # a rejection is already in hand: the verdict cannot change, do not burn the machine on the rest
+            stop["skipped"] += 1
+            return w, None
+        res = V.run_tlc(sc, "Window", module, cfg, workers=1, timeout=timeout,
+                        env_extra=dict(JVM_SMALL, TRACE_FILE=fp))
+        if res["rejected_at"] is not None or res["violated"] or ("Postcondition" in res["out"] and "is false" in res["out"]):
+            stop["set"] = True
+        return w, res
 
     t = time.time()
-    with concurrent.futures.ThreadPoolExecutor(max_workers=16) as ex:
+    with concurrent.futures.ThreadPoolExecutor(max_workers=parallel) as ex:
         for (tag, module, cfg, fp), res in ex.map(one, work):
+            if res is None:
+                continue
             o = out[tag]
             o["states"] += res["distinct"]
             o["kf"].update(res["kf"])
@@ -116,6 +133,8 @@ def validate(sc, jobs, timeout=3000):
                 o["rejections"].append((fp, None, res))
             elif "Postcondition" in res["out"] and "is false" in res["out"]:
                 o["rejections"].append((fp, None, res))
+    if stop["skipped"]:
+        V.log("trace validation: stopped after the first rejection, %d part(s) not validated" % stop["skipped"])
     for tag, o in out.items():
         o["accepted"] = not o["rejections"]
         V.log("trace validation %s: %d part(s), %d spec states, %d rejection(s), %d drift report(s)" %
@@ -139,11 +158,17 @@ def run(sc, tier, seed):
     def design_level():
         per_model, results = {}, []
         for mod, cfg in models:
-            res = V.model_check(sc, "Window", mod, cfg, workers=8 if q else 16, timeout=2400)
+            res = V.run_tlc(sc, "Window", mod, cfg, workers=8 if q else 16, timeout=2400,
+                            env_extra=JVM_MODEL_QUICK if q else JVM_MODEL)
+            if res["violated"]:
+                # a counterexample in the model alone is not a verdict about the code (DESIGN 2.2)
+                raise V.Broken("model Window/%s violates %s - the specification itself is inconsistent:\n%s" %
+                               (cfg, res["violated"], "\n".join(res["out"].splitlines()[-60:])))
+            V.log("model Window/%s: %d states, %d distinct, %.1fs" % (cfg, res["states"], res["distinct"], res["wall"]))
             results.append(res)
             per_model[cfg] = {"states": res["distinct"], "transitions": res["states"], "wall_s": round(res["wall"], 1)}
         # the ring before the fix: the model must still find the drain-then-wrap counterexample
-        pre = V.run_tlc(sc, "Window", "WindowRingMC.tla", "WindowRing_prefix.cfg", workers=8, timeout=900)
+        pre = V.run_tlc(sc, "Window", "WindowRingMC.tla", "WindowRing_prefix.cfg", workers=8, timeout=900, env_extra=JVM_MODEL_QUICK)
         if pre["violated"] not in ("RingRefinesSeq", "RingEmitsBuf"):
             raise V.Broken("the ring model without the purge guard no longer yields the drain-then-wrap counterexample "
                            "(got %r): the specification lost its ability to tell the two apart" % pre["violated"])
@@ -165,7 +190,8 @@ def run(sc, tier, seed):
         count_files = [f for f in tf if os.path.basename(f).startswith("count_")]
         val = validate(sc, [("cover inputs", "WindowTraceMC.tla", "WindowTrace.cfg", cover_files),
                             ("time windows", "WindowTraceMC.tla", "WindowTrace.cfg", time_files),
-                            ("count windows", "WindowCountTraceMC.tla", "WindowCountTrace.cfg", count_files)])
+                            ("count windows", "WindowCountTraceMC.tla", "WindowCountTrace.cfg", count_files)],
+                       parallel=8 if q else 12)
         vc, vt, vn = val["cover inputs"], val["time windows"], val["count windows"]
         for v in (vc, vt, vn):
             R.states += v["states"]
@@ -183,7 +209,7 @@ def run(sc, tier, seed):
     extra["transition_cover"] = items
     extra["impl_drift"] = (vc["drift"] + vt["drift"])[:20]
     # a cover input that does not hit its branch on the validated trace means cover and trace spec disagree
-    if vc["accepted"]:
+    if vc["accepted"] and not R.violations:
         missing = [it["branch"] for it in items if vc["hits"][it["branch"]] == 0]
         if missing:
             raise V.Broken("cover inputs ran but the ring model did not take %s while validating them" % missing)
